@@ -571,7 +571,26 @@ func mutationSequences(nseq int, base string) {
 			nsteps++
 		}
 		for i := 0; i < 14; i++ {
-			switch rng.Intn(8) {
+			switch rng.Intn(9) {
+			case 8: // hard link (9P2000.u): ext is the number of a fid walked to the source
+				if !dotu {
+					continue
+				}
+				src := []string{"f1", "d1/f2"}[rng.Intn(2)]
+				name := newName()
+				mode := uint8([]int{0, 1, 2, 16, 17, 18}[rng.Intn(6)])
+				sfid, e9 := t.clnt.FWalk(src)
+				if e9 != nil {
+					continue
+				}
+				nfid, e9 := t.clnt.FWalk("")
+				if e9 == nil {
+					e9 = t.clnt.Create(nfid, name, 0o644|go9p.DMLINK, mode, fmt.Sprint(sfid.Fid))
+					_ = t.clnt.Clunk(nfid)
+				}
+				_ = t.clnt.Clunk(sfid)
+				eT := os.Link(filepath.Join(b, src), filepath.Join(b, name))
+				step("link", fmt.Sprintf("%s<-%s/m%d", hxs(name), hxs(src), mode), e9, eT)
 			case 0: // create file
 				dir := []string{"", "d1", "d1/d2", "empty", "f1"}[rng.Intn(5)]
 				name := newName()
